@@ -12,6 +12,9 @@ import (
 // evaluation order) and a plain term.  want is the type the context gives an untyped nil.
 func (ft *funcTr) expr(e ast.Expr, want types.Type) ([]pre, string) {
 	t := ft.t
+	if p, v, ok := ft.exprExt(e, want); ok { // ext.go
+		return p, v
+	}
 	tv, ok := t.info.Types[e]
 	if ok && tv.Value != nil {
 		T := tv.Type
@@ -40,13 +43,21 @@ func (ft *funcTr) expr(e ast.Expr, want types.Type) ([]pre, string) {
 			t.fail(e, "nil of type %s", want)
 		}
 		if v, ok := ft.isLocal(obj); ok {
+			if t.kindOf(v.Type()) == kOpaque {
+				t.fail(e, "variable %s of the opaque type %s used other than through its table functions", x.Name, v.Type())
+			}
 			return nil, ft.names[v]
 		}
 		if v, ok := obj.(*types.Var); ok && v.Pkg() == t.pkg && v.Parent() == t.pkg.Scope() {
 			return nil, t.pkgVar(x, v)
 		}
 		t.fail(e, "identifier %s", x.Name)
+	case *ast.StarExpr:
+		return ft.deref(x) // state.go
 	case *ast.UnaryExpr:
+		if x.Op == token.AND && t.cfg.StatePassing {
+			return ft.addrOf(x) // state.go
+		}
 		p, v := ft.expr(x.X, want)
 		k := t.kindOf(tv.Type)
 		switch {
@@ -65,6 +76,10 @@ func (ft *funcTr) expr(e ast.Expr, want types.Type) ([]pre, string) {
 	case *ast.IndexExpr:
 		XT := t.info.Types[x.X].Type
 		switch k := t.kindOf(XT); {
+		case k == kRefMap:
+			return ft.refMapIndex(x)
+		case k == kMap && t.cfg.AssocMaps:
+			return ft.mapIndex(x)
 		case k == kMap:
 			// m[k] on a map that is only read: the value, or the zero value (never a panic)
 			if tvx, ok := t.info.Types[e]; ok {
@@ -110,6 +125,9 @@ func (ft *funcTr) expr(e ast.Expr, want types.Type) ([]pre, string) {
 		tmp := ft.temp()
 		return append(pres, pre{tmp, fmt.Sprintf("%s %s %s %s", op, base, lo, hi)}), tmp
 	case *ast.SelectorExpr:
+		if term, ok := ft.extVar(x); ok {
+			return nil, term // state.go
+		}
 		sel := t.info.Selections[x]
 		if sel == nil || sel.Kind() != types.FieldVal || len(sel.Index()) != 1 {
 			t.fail(e, "selector %s (only fields of the supported struct types)", x.Sel.Name)
@@ -123,7 +141,7 @@ func (ft *funcTr) expr(e ast.Expr, want types.Type) ([]pre, string) {
 			t.fail(e, "field of a value of type %s", sel.Recv())
 		}
 		p, base := ft.expr(x.X, nil)
-		return p, "(" + st.Fields[sel.Index()[0]].Getter + " " + base + ")"
+		return p, "(" + ft.fieldGetter(x, st, T) + " " + base + ")"
 	case *ast.CompositeLit:
 		return ft.composite(x)
 	}
@@ -169,6 +187,9 @@ func (ft *funcTr) binary(x *ast.BinaryExpr) ([]pre, string) {
 			return p1, "(" + a + " || " + b + ")"
 		}
 		// the right operand can panic: it is evaluated only if the left one does not decide
+		if ft.hasStateCall(x.Y) {
+			t.fail(x.Y, "call that changes state in the right operand of %s", x.Op) // state.go
+		}
 		var inner strings.Builder
 		for _, p := range p2 {
 			fmt.Fprintf(&inner, "%s <- %s ;; ", p.pat, p.term)
@@ -187,6 +208,9 @@ func (ft *funcTr) binary(x *ast.BinaryExpr) ([]pre, string) {
 				return "(negb " + s + ")"
 			}
 			return s
+		}
+		if p, v, ok := ft.stateCompare(x); ok {
+			return p, neg(v) // state.go
 		}
 		// comparison with nil: only for errors
 		if ft.isNilExpr(x.X) || ft.isNilExpr(x.Y) {
@@ -310,7 +334,15 @@ func (ft *funcTr) call(c *ast.CallExpr, want types.Type) ([]pre, string) {
 			elems = append(elems, v)
 		}
 		return pres, "(go_append " + base + " [" + strings.Join(elems, "; ") + "])"
+	case "min", "max":
+		return ft.minMax(c, ft.builtin(c))
 	case "make":
+		if p, v, ok := ft.makeExt(c); ok {
+			return p, v
+		}
+		if len(c.Args) == 1 && t.kindOf(t.info.Types[c.Args[0]].Type) == kRefMap {
+			return nil, "go_mapref_make"
+		}
 		if len(c.Args) != 2 || t.kindOf(t.info.Types[c.Args[0]].Type) != kBytes {
 			t.fail(c, "make other than make([]byte, n)")
 		}
@@ -327,8 +359,21 @@ func (ft *funcTr) call(c *ast.CallExpr, want types.Type) ([]pre, string) {
 	default:
 		t.fail(c, "built-in function %s", ft.builtin(c))
 	}
+	if p, v, ok := ft.stateCall(c); ok {
+		return p, v // state.go
+	}
+	// translated method of this package, called on the receiver (methods.go)
+	if key := t.methodCallee(c); key != "" {
+		if inSet(t.cfg.NoReturn, key) {
+			t.fail(c, "call of the no-return function %s inside an expression", key)
+		}
+		return ft.methodCallExpr(c, key)
+	}
 	// translated function of this package
 	if name := t.callee(c); name != "" {
+		if t.mayFail(name) {
+			t.fail(c, "call of %s, which can end in a no-return call", name)
+		}
 		sig := t.info.Types[c.Fun].Type.(*types.Signature)
 		if sig.Variadic() || len(c.Args) != sig.Params().Len() {
 			t.fail(c, "call of %s with a different number of arguments than parameters", name)
@@ -358,15 +403,25 @@ func (ft *funcTr) call(c *ast.CallExpr, want types.Type) ([]pre, string) {
 			if !ok {
 				t.fail(c, "call of %s, which has no denotation in the table", key)
 			}
+			if lf.IsError && t.cfg.ErrorValues {
+				t.fail(c, "%s inside a function: with error values as sentinels only package-level error variables are supported", key) // state.go
+			}
+			if lf.Mutates && ft.mutOK != c {
+				t.fail(c, "call of %s, which changes its first argument, used other than as a statement", key)
+			}
 			var pres []pre
 			parts := []string{lf.Coq}
 			if sig.Recv() != nil {
 				if lf.IsError {
 					t.fail(c, "method %s as an error constructor", key)
 				}
-				p, v := ft.expr(sel.X, nil)
-				pres = append(pres, p...)
-				parts = append(parts, v)
+				if ov := ft.opaqueOperand(sel.X); ov != "" {
+					parts = append(parts, ov)
+				} else {
+					p, v := ft.expr(sel.X, nil)
+					pres = append(pres, p...)
+					parts = append(parts, v)
+				}
 			}
 			var rest []string // the arguments of a variadic parameter: a list
 			for i, a := range c.Args {
@@ -385,8 +440,21 @@ func (ft *funcTr) call(c *ast.CallExpr, want types.Type) ([]pre, string) {
 				if variadic {
 					pt = sig.Params().At(sig.Params().Len() - 1).Type().(*types.Slice).Elem()
 					if t.kindOf(pt) == kOther {
+						if p, v, ok := ft.anyArg(a, pt); ok {
+							pres = append(pres, p...)
+							rest = append(rest, v)
+							continue
+						}
 						t.fail(a, "variadic argument of type %s", pt)
 					}
+				}
+				if fl, ok := ast.Unparen(a).(*ast.FuncLit); ok {
+					parts = append(parts, ft.funcLit(fl))
+					continue
+				}
+				if ov := ft.opaqueOperand(a); ov != "" && i == 0 {
+					parts = append(parts, ov)
+					continue
 				}
 				p, v := ft.expr(a, pt)
 				pres = append(pres, p...)
